@@ -1139,11 +1139,14 @@ class AnsiString:
 
     def __contains__(self, value:Union[str,'AnsiString','AnsiStr',Any]) -> bool:
         ''' Returns True iff the str or the underlying str of an AnsiString is in this AnsiString '''
-        if isinstance(value, str):
-            value = AnsiString(value)
+        if isinstance(value, AnsiStr):
+            value = value._s
 
         if isinstance(value, AnsiString):
             return value._s in self._s
+        elif isinstance(value, str):
+            # A plain str is looked up as it is (like find() and count() do): it is not parsed for escape codes
+            return value in self._s
 
         return False
 
